@@ -75,6 +75,7 @@ C_PRETEND = 36       # an object of an unrelated class whose `__class__` reports
 C_COL2 = 35          # a second enum whose __name__ is also "Col" (another module's class of the same name)
 C_INNER, C_SUB, C_BOX, C_BOX_INT, C_BOX_STR, C_BOX_INNER, C_PAIR, C_PAIR_INT_STR, C_NODE, C_BOX_ANY = 40, 41, 42, 43, 44, 45, 46, 47, 48, 49
 C_INNER2, C_BOX_COL, C_BOX_COL2, C_BOX_INNER2 = 50, 51, 52, 53   # twin `Inner`; Box specialised with each twin
+C_SUBBOX, C_SUBBOX_INT = 54, 55   # a generic subclass of the generic Box (`class SubBox[T](Box[T]): w: int = 0`), specialised after Box[int]
 C_GEN = 100          # the generated class of a case; its specialisation is 101; further generated classes 102..
 NS_MODULE = "harness.state_ns"
 
@@ -168,6 +169,8 @@ class Universe:
         Pair = types.new_class("Pair", (State, typing.Generic[A, B]), {},
                                lambda ns: body(ns, {"a": A, "b": B}, {"__type_params__": (A, B)}))
         Inner2 = types.new_class("Inner", (State,), {}, lambda ns: body(ns, {"q": str}, {"q": ""}))   # twin, not in state_ns
+        SubBox = types.new_class("SubBox", (Box[T], typing.Generic[T]), {},
+                                 lambda ns: body(ns, {"w": int}, {"w": 0, "__type_params__": (T,)}))
         state_ns.Inner, state_ns.Sub, state_ns.Box, state_ns.Pair = Inner, Sub, Box, Pair
         state_ns.Col = Col
         Node = types.new_class("Node", (State,), {},
@@ -186,6 +189,7 @@ class Universe:
             C_BOX_INNER: Box[Inner], C_PAIR: Pair, C_PAIR_INT_STR: Pair[int, str], C_NODE: Node,
             C_BOX_ANY: Box[typing.Any],
             C_PRETEND: Pretender, C_COL2: Col2, C_INNER2: Inner2, C_BOX_COL: Box[Col], C_BOX_COL2: Box[Col2], C_BOX_INNER2: Box[Inner2],
+            C_SUBBOX: SubBox, C_SUBBOX_INT: SubBox[int],
         }
         self.ids = {c: i for i, c in self.cls.items()}
         self.funcs = [_f0, _f1, _f2, _f3]
@@ -234,6 +238,25 @@ def _f3(x=1):
 _U: Universe | None = None
 
 
+# what the fixed State classes of the universe must be, whatever the library does to build them (the class table is part of the
+# test *input*: a change that corrupts class creation / specialisation must not corrupt the expectation with it)
+EXPECTED_STATE_SUB = {(41, 40), (43, 42), (44, 42), (45, 42), (47, 46), (49, 42), (51, 42), (52, 42), (53, 42), (54, 42), (55, 42), (55, 54)}
+
+
+def universe_defects(u: "Universe") -> list[str]:
+    st = sorted(i for i in u.cls if i in ATTRS_OF)
+    bad = []
+    if len({id(u.cls[i]) for i in st}) != len(st):
+        bad.append("two-ids-one-class")
+    for i in st:
+        if list(getattr(u.cls[i], "__ATTRIBUTES__", {})) != ATTRS_OF[i]:
+            bad.append(f"attributes-of-{i}")
+    got = {(i, j) for i in st for j in st if i != j and issubclass(u.cls[i], u.cls[j])}
+    if got != EXPECTED_STATE_SUB:
+        bad.append("subclass-relation:" + ",".join(f"{a}<{b}" for a, b in sorted(got ^ EXPECTED_STATE_SUB)))
+    return bad
+
+
 def universe() -> Universe:
     global _U
     if _U is None:
@@ -252,11 +275,13 @@ BASE_SPECS = [
     [str(C_BOX), str(C_BOX_COL2), ["cls", str(C_COL2)]],
     [str(C_BOX), str(C_BOX_INNER2), ["cls", str(C_INNER2)]],
     [str(C_PAIR), str(C_PAIR_INT_STR), ["cls", str(C_INT)], ["cls", str(C_STR)]],
+    [str(C_SUBBOX), str(C_SUBBOX_INT), ["cls", str(C_INT)]],
 ]
 BASE_NAMES = [["Inner", str(C_INNER)], ["Sub", str(C_SUB)], ["Node", str(C_NODE)], ["Col", str(C_COL)]]
 ATTRS_OF = {  # attributes of the universe's State classes (for building instances)
     C_INNER: ["n"], C_SUB: ["n", "m"], C_BOX: ["v"], C_BOX_INT: ["v"], C_BOX_STR: ["v"], C_BOX_INNER: ["v"],
     C_BOX_ANY: ["v"], C_INNER2: ["q"], C_BOX_COL: ["v"], C_BOX_COL2: ["v"], C_BOX_INNER2: ["v"], C_PAIR: ["a", "b"], C_PAIR_INT_STR: ["a", "b"], C_NODE: ["val", "next"],
+    C_SUBBOX: ["v", "w"], C_SUBBOX_INT: ["v", "w"],
 }
 
 
@@ -476,7 +501,14 @@ class Ctx:
         if k == "D":
             return self.remember({self.val(a): self.val(b) for a, b in v[1:]}, "")
         if k == "P":
-            return types.MappingProxyType({self.val(a): self.val(b) for a, b in v[1:]})
+            # a read-only *view* over a dict the caller still owns (and may change later)
+            backing_ = {self.val(a): self.val(b) for a, b in v[1:]}
+            proxy_ = types.MappingProxyType(backing_)
+            if not hasattr(self, "proxy_backing"):
+                self.proxy_backing = {}
+            self.proxy_backing[id(proxy_)] = backing_
+            self.keep.append(proxy_)
+            return proxy_
         if k == "E":
             return list(self.cls[int(v[1])])[int(v[2])]
         key = (k, v[1], v[2]) if k in ("I", "O") else (k, v[1])
